@@ -7,9 +7,12 @@ evaluations (`decide`) over it, so they are re-proved against the current
 sources.  (first layer: the numbering assumptions of the front-end model)
 -/
 import KikiVerif.Model.FrontParse
+import KikiVerif.Proofs.Valid
+import KikiVerif.Proofs.Run
+import KikiVerif.Generated.ParserCert
 
 namespace KikiVerif.C09
-open KikiVerif KikiVerif.FrontParse KikiVerif.Generated
+open KikiVerif KikiVerif.FrontParse KikiVerif.Generated KikiVerif.LR
 
 /-- the token kinds of the model are the `QuasiterminalKind` variants of `parser.rs`, in order,
 and the terminals `parser.kiki` declares, in order -/
@@ -39,9 +42,95 @@ theorem C09_reduce_arms :
     (ParserRs.reduceArms.map fun a => a.pops.length) = ParserRs.reduceArms.map (·.truncate) := by
   decide
 
+/-! ### the extracted tables are a valid LR automaton for the Kiki grammar -/
+
+/-- the tables of `parser.rs` (extracted) with candidate item sets and FIRST table (untrusted, produced by
+running the model's LALR construction on `parser.kiki`; `tools/mk_cert.py`) -/
+def parserCert : Valid.Cert :=
+  { frontCert with states := ParserCert.states, first := ParserCert.first }
+
+set_option maxRecDepth 1000000 in
+/-- **kernel-checked**: the ACTION / GOTO tables checked into `parser.rs` satisfy every local LR validity
+condition for the grammar declared in `parser.kiki` -/
+theorem C09_table_valid : Valid.validB kikiG ParserRs.nonterminalNames.length parserCert = true := by
+  decide +kernel
+
+theorem C09_sound_complete {P : Type} :
+    Sound kikiG (Valid.mkAuto parserCert) ∧ Complete (P := P) kikiG (Valid.mkAuto parserCert) :=
+  Valid.validB_sound C09_table_valid
+
+theorem arm_rules_agree (r : Nat) :
+    (armG.rules[r]?).map (fun (x : Rule Nat Nat) => (x.lhs, x.rhs.length)) =
+      (kikiG.rules[r]?).map (fun (x : Rule Nat Nat) => (x.lhs, x.rhs.length)) := by
+  have h := C09_reduce_arms.2.1
+  have e1 : (armG.rules[r]?).map (fun (x : Rule Nat Nat) => (x.lhs, x.rhs.length)) =
+      (armRules.map (fun r => (r.lhs, r.rhs.length)))[r]? := by
+    rw [List.getElem?_map]; rfl
+  have e2 : (kikiG.rules[r]?).map (fun (x : Rule Nat Nat) => (x.lhs, x.rhs.length)) =
+      (kikiG.rules.map (fun r => (r.lhs, r.rhs.length)))[r]? := by
+    rw [List.getElem?_map]
+  rw [e1, e2, h]
+
+/-- the driver of `parser.rs` over its own reduce arms behaves as the LR driver for the Kiki grammar
+over the validated automaton -/
+theorem front_step_eq (c : Cfg Nat Token) :
+    step armG frontAuto c = step kikiG (Valid.mkAuto parserCert) c := by
+  rw [step_congr_grammar arm_rules_agree c]
+  exact step_congr_auto rfl rfl c
+
+theorem front_run_eq (fuel : Nat) (c : Cfg Nat Token) :
+    runCfg armG frontAuto fuel c = runCfg kikiG (Valid.mkAuto parserCert) fuel c :=
+  runCfg_congr front_step_eq fuel c
+
+/-- **C09, acceptance**: for every token list, the front-end parser never panics; whenever it returns, it
+returns a CST iff the token sequence is a sentence of the Kiki grammar of `parser.kiki`, and the CST is a
+derivation tree whose leaves are exactly the input tokens in order -/
+theorem C09_parse_correct (toks : List Token) (fuel : Nat) (out : ParseOut) (h : parse toks fuel = some out) :
+    (match out with | .panic => False | _ => True) ∧
+    (∀ t, (match out with | .ok t' => t' = t | _ => False) →
+        WF kikiG t (.n kikiG.start) ∧ t.yield = toks.map mkTok) ∧
+    ((∃ t, match out with | .ok t' => t' = t | _ => False) ↔
+        ∃ t : Tree Nat Token, WF kikiG t (.n kikiG.start) ∧ t.yield = toks.map mkTok) := by
+  unfold parse at h
+  rw [front_run_eq] at h
+  cases hr : runCfg kikiG (Valid.mkAuto parserCert) fuel ⟨[frontAuto.start], [], toks.map mkTok⟩ with
+  | none => rw [hr] at h; cases h
+  | some rc =>
+    obtain ⟨r, cf⟩ := rc
+    rw [hr] at h
+    simp only [Option.map_some, Option.some.injEq] at h
+    have hstart : frontAuto.start = (Valid.mkAuto parserCert).start := rfl
+    rw [hstart] at hr
+    obtain ⟨hs, hc⟩ := C09_sound_complete (P := Token)
+    obtain ⟨h1, h2, h3⟩ := run_sound hs fuel _ [] .base _ _ hr
+    have hiff := run_ok_iff hs hc (toks.map mkTok) fuel r cf hr
+    cases r with
+    | panic => exact absurd rfl h1
+    | cont c' => exact absurd rfl (h2 c')
+    | err =>
+      subst h
+      refine ⟨trivial, fun t ht => by simp at ht, ?_⟩
+      constructor
+      · rintro ⟨t, ht⟩; simp at ht
+      · intro hex
+        obtain ⟨t, ht⟩ := hiff.mpr hex
+        cases ht
+    | ok t =>
+      subst h
+      refine ⟨trivial, fun t' ht' => ?_, ?_⟩
+      · simp only at ht'
+        subst ht'
+        have := h3 t rfl
+        simpa using this
+      · constructor
+        · intro _; exact hiff.mp ⟨t, rfl⟩
+        · intro _; exact ⟨t, rfl⟩
+
 end KikiVerif.C09
 
 #print axioms KikiVerif.C09.C09_kinds
 #print axioms KikiVerif.C09.C09_nonterminals
 #print axioms KikiVerif.C09.C09_rule_numbering
 #print axioms KikiVerif.C09.C09_reduce_arms
+#print axioms KikiVerif.C09.C09_table_valid
+#print axioms KikiVerif.C09.C09_parse_correct
